@@ -8,6 +8,7 @@ from ..mon_problem import mon_optimize
 PROPERTY = 'C03'
 CASES = {'quick': 420, 'thorough': 8000}
 BUDGET_S = {'quick': 150, 'thorough': 1800}
+SUITE_UNDER_MONITORS = True      # thorough tier: the repository's own tests are an extra workload under the passive monitors
 RULE = ('case = one problem pushed through the real OptimProblem.optimize (or SplitOptimProblem.optimize) with a solver choice from '
         '{default, CLARABEL, SCIPY, SCIP}: (a) assembled from a random mixed portfolio (LP and MIP), (b) synthetic raw problem with all four row '
         'classes interleaved, duplicated mapping rows and boolean flags on variables with bounds such as [-0.3, 1.6], random costs so rows of '
